@@ -39,6 +39,9 @@ pub struct SchedCase {
     /// packet size of the source (0 = full blocks; see `TestSource::packet`)
     #[serde(default)]
     pub packet: usize,
+    /// the source reports its true length through `len_hint`
+    #[serde(default)]
+    pub len_hint: bool,
 }
 
 impl SchedCase {
@@ -88,6 +91,7 @@ fn run_encode(case: &SchedCase, samples: &[i32], multithread: bool) -> RunOut {
         let mut src = TestSource::new(samples, case.inp.channels, case.inp.bps, case.inp.rate, if case.src == SrcKind::Mem { SrcKind::Int } else { case.src }).with_faults(case.faults.clone());
         src.fill_empty_at_end = case.fill_empty_at_end;
         src.packet = case.packet;
+        src.hint = case.len_hint;
         flacenc::encode_with_fixed_block_size(&vcfg, src, cfg.block_size).map(|s| to_bytes(&s, limit))
     });
     match r {
@@ -158,6 +162,7 @@ fn run_scheduled(case: &SchedCase, samples: &[i32], seed: u64, partial: ExecResu
     s.register_main();
     let out = run_encode(case, samples, true);
     let leaked = s.at_return();
+    sched::stop_monitor(&s);
     sched::uninstall();
     let st = s.st.lock().unwrap();
     let me = format!("{:?}", std::thread::current().id());
@@ -486,7 +491,7 @@ pub fn real_threads_strategy(purpose: &'static str) -> BoxedStrategy<SchedCase> 
             cfg.multithread = true;
             cfg.workers = Some(workers);
             inp.len = inp.len * 2;
-            SchedCase { purpose: purpose.into(), cfg, inp, src, fill_empty_at_end: fe, faults: vec![], env: None, strategy: [9u8, 10, 10, 11, 12][(s % 5) as usize], pct_depth: 0, choices: vec![], sched_seed: s, sched_seed2: s ^ 1, packet: 0 }
+            SchedCase { purpose: purpose.into(), cfg, inp, src, fill_empty_at_end: fe, faults: vec![], env: None, strategy: [9u8, 10, 10, 11, 12][(s % 5) as usize], pct_depth: 0, choices: vec![], sched_seed: s, sched_seed2: s ^ 1, packet: 0, len_hint: s % 2 == 0 }
         })
         .boxed()
 }
@@ -498,7 +503,7 @@ pub fn c05_strategy() -> BoxedStrategy<SchedCase> {
             cfg.workers = workers;
             // the environment only matters when config.workers is None
             let env = if workers.is_some() && env.is_some() && s1 % 2 == 0 { None } else { env };
-            SchedCase { purpose: "c05".into(), cfg, inp, src, fill_empty_at_end: fe, faults: vec![], env, strategy, pct_depth, choices, sched_seed: s1, sched_seed2: s2, packet: if s2 % 5 == 0 { 1 + ((s2 / 5) as usize % 600) } else { 0 } }
+            SchedCase { purpose: "c05".into(), cfg, inp, src, fill_empty_at_end: fe, faults: vec![], env, strategy, pct_depth, choices, sched_seed: s1, sched_seed2: s2, packet: if s2 % 5 == 0 { 1 + ((s2 / 5) as usize % 600) } else { 0 }, len_hint: s2 % 3 == 0 }
         })
         .boxed()
 }
@@ -523,7 +528,7 @@ pub fn c06_strategy() -> BoxedStrategy<SchedCase> {
         .prop_map(|((mut cfg, inp, workers, (strategy, pct_depth, choices, s1, s2), src, fe), faults)| {
             cfg.multithread = true;
             cfg.workers = Some(workers);
-            SchedCase { purpose: "c06".into(), cfg, inp, src, fill_empty_at_end: fe, faults, env: None, strategy, pct_depth, choices, sched_seed: s1, sched_seed2: s2, packet: if s2 % 5 == 0 { 1 + ((s2 / 5) as usize % 600) } else { 0 } }
+            SchedCase { purpose: "c06".into(), cfg, inp, src, fill_empty_at_end: fe, faults, env: None, strategy, pct_depth, choices, sched_seed: s1, sched_seed2: s2, packet: if s2 % 5 == 0 { 1 + ((s2 / 5) as usize % 600) } else { 0 }, len_hint: s2 % 3 == 0 }
         })
         .boxed()
 }
@@ -533,7 +538,7 @@ pub fn c03_strategy() -> BoxedStrategy<SchedCase> {
         .prop_map(|((mut cfg, inp), workers, (strategy, pct_depth, choices, s1, s2), src, fe)| {
             cfg.multithread = true;
             cfg.workers = Some(workers);
-            SchedCase { purpose: "c03".into(), cfg, inp, src, fill_empty_at_end: fe, faults: vec![], env: None, strategy, pct_depth, choices, sched_seed: s1, sched_seed2: s2, packet: if s2 % 5 == 0 { 1 + ((s2 / 5) as usize % 600) } else { 0 } }
+            SchedCase { purpose: "c03".into(), cfg, inp, src, fill_empty_at_end: fe, faults: vec![], env: None, strategy, pct_depth, choices, sched_seed: s1, sched_seed2: s2, packet: if s2 % 5 == 0 { 1 + ((s2 / 5) as usize % 600) } else { 0 }, len_hint: s2 % 3 == 0 }
         })
         .boxed()
 }
@@ -600,6 +605,7 @@ pub fn run_c06(ctx: &Ctx) {
                             sched_seed: crate::util::mix(ctx.seed, (frames * 1000 + k * 50 + w * 10 + s) as u64),
                             sched_seed2: 0,
                             packet: 0,
+                            len_hint: s % 3 == 2,
                         });
                     }
                 }
